@@ -72,7 +72,24 @@ def scenarios():
         out += [(i, x, None) for x in w.sas(i)]
         out.append((r, w.sas(r)[0], bytes(dele)))
         return out
-    sc = [('established', s_established), ('halfopen', s_halfopen), ('rekeyed', s_rekeyed)]
+    def s_rekeyed_successor_gone(w, i):
+        """the DELETE of the old IKE_SA after a rekey is lost, the old IKE_SAs linger on both sides - and meanwhile the SUCCESSOR has come to its end (an
+        authentic DELETE exchange): whatever arrives for the old IKE_SAs now finds a table without the successor"""
+        r = estab(w, i)
+        sa = w.sas(i)[0]
+        req = fire(w, i, sa, 'rekeyike')
+        res = w.dispatch(r, req, i)
+        dele = w.dispatch(i, res, r)              # (lost)
+        old_i, old_r = w.sas(i)[0], w.sas(r)[0]
+        succ_i = next(x for x in w.sas(i) if x is not old_i)
+        m, cur = fire(w, i, succ_i, 'delike'), i
+        while m is not None:
+            nxt = w.peer_of(cur)
+            m, cur = w.dispatch(nxt, m, cur), nxt
+        if [x.state.name for x in w.sas(i)] != ['DEL_AFTER_REKEY_IKE_SA_REQ_SENT'] or [x.state.name for x in w.sas(r)] != ['REKEYED']:
+            raise common.MachineryError(f'set-up "successor gone": {[x.state.name for x in w.sas(i)]} / {[x.state.name for x in w.sas(r)]}')
+        return [(r, old_r, bytes(dele)), (i, old_i, None)]
+    sc = [('established', s_established), ('halfopen', s_halfopen), ('rekeyed', s_rekeyed), ('rekeyed_successor_gone', s_rekeyed_successor_gone)]
     for k in ('new', 'rekchild', 'delchild', 'rekeyike', 'delike', 'dpd'):
         sc.append(('req_sent_' + k, req_sent(k)))
     return sc
